@@ -58,7 +58,8 @@ class P(flow.Plan):
         for i in range(n):
             rng = random.Random(sd * 65537 + i)
             kinds = [rng.choice(["path", "binary", "text", "custom", "ufile_b", "ufile_t"]) for _ in range(rng.randint(2, 5))]
-            eol = rng.choice(["\n", "\r\n"])
+            eol = rng.choice(["\n", "\r\n", "\r\n", "\r"])
+            raw = rng.random() < 0.5
             descs = []
             for _ in range(rng.randint(8, 30)):
                 x = rng.random()
@@ -82,13 +83,13 @@ class P(flow.Plan):
                 # the user closes a stream of their own, then tears the builder down (added after seed C14f: teardown flushed
                 # user streams and stopped half-way on the closed one); nothing is written in between
                 descs += [{"act": "add", "w": rng.randint(1, len(kinds))}, {"act": "close_stream", "w": rng.choice(streams)}, {"act": "teardown"}]
-            traces.append(writers_rec.run_descs(descs, kinds, eol, {"driver": "random", "seed": sd * 65537 + i}))
-            inputs.append({"kinds": kinds, "eol": eol, "descs": descs})
+            traces.append(writers_rec.run_descs(descs, kinds, eol, {"driver": "random", "seed": sd * 65537 + i}, raw=raw))
+            inputs.append({"kinds": kinds, "eol": eol, "raw_eol": raw, "descs": descs})
         return traces, inputs
 
     def replay(self, payload):
         inp = payload["input"]
-        return [writers_rec.run_descs(inp["descs"], inp["kinds"], inp["eol"], {"driver": "replay"})], [inp]
+        return [writers_rec.run_descs(inp["descs"], inp["kinds"], inp["eol"], {"driver": "replay"}, raw=inp.get("raw_eol", False))], [inp]
 
     def sample(self, t):
         return {"meta": t["meta"], "ev": [{k: (v if k != "obs" else [len(x) for x in v]) for k, v in e.items()} for e in t["ev"][:8]]}
